@@ -103,6 +103,29 @@ pub fn check_position(p: &Pos, every: usize, rng: &mut gen::R, rep: &mut Report)
                     rep.violation("lan-select", &format!("lan-select|{}|{}", fen, text), &format!("'{}' selects {:?}", text, sel.iter().map(omove_str).collect::<Vec<_>>()), json!({"fen": fen, "text": text}));
                     return false;
                 }
+                // the same text through the path the UCI loop uses: State::by_performing_moves must accept it and
+                // arrive at the successor of exactly that move
+                if let Some(q) = query_from_lan(&text) {
+                    match guard(|| State::by_performing_moves(&st, &[q])) {
+                        Ok(Ok(after)) => {
+                            let want = p.make(om);
+                            let got = crate::conv::to_pos(&after);
+                            if got.b != want.b || got.wtm != want.wtm || got.castle != want.castle {
+                                rep.violation("lan-select", &format!("lan-select|apply|{}|{}", fen, text), &format!("'{}' applied through by_performing_moves gives {}, the move leads to {}", text, got.fen(), want.fen()), json!({"fen": fen, "text": text}));
+                                return false;
+                            }
+                        }
+                        Ok(Err(e)) => {
+                            rep.violation("lan-select", &format!("lan-select|apply|{}|{}", fen, text), &format!("'{}' (written for a legal move) is refused by by_performing_moves: {:?}", text, e), json!({"fen": fen, "text": text}));
+                            return false;
+                        }
+                        Err(e) => {
+                            rep.violation("lan-panic", &format!("lan-panic|apply|{}", fen), &e, json!({"fen": fen, "text": text}));
+                            return false;
+                        }
+                    }
+                    rep.count("coordinate_texts_applied", 1);
+                }
                 rep.count("coordinate_texts", 1);
             }
             Err(e) => {
